@@ -5,5 +5,5 @@ S=$1; N=$2
 mkdir -p /verif/seeded/$N
 cp $S/patch.diff /verif/seeded/$N/patch.diff
 cp $S/NOTE.md /verif/seeded/$N/NOTE.md 2>/dev/null || true
-sed -e "s#sys.path.insert(0, \"$S\")#sys.path.insert(0, __import__('os').environ.get('SEED_REPO', '/repo'))#; s#sys.path.insert(0, '$S')#sys.path.insert(0, __import__('os').environ.get('SEED_REPO', '/repo'))#; s#sys.path.insert(0, os.path.dirname(os.path.abspath(__file__)))#sys.path.insert(0, os.environ.get('SEED_REPO', '/repo'))#; s#$S#'+__import__('os').environ.get('SEED_REPO','/repo')+'#g" $S/demo.py > /verif/seeded/$N/demo.py
+sed -e "s#sys.path.insert(0, \"$S\")#sys.path.insert(0, __import__('os').environ.get('SEED_REPO', '/repo'))#; s#sys.path.insert(0, '$S')#sys.path.insert(0, __import__('os').environ.get('SEED_REPO', '/repo'))#; s#sys.path.insert(0, os.path.dirname(os.path.abspath(__file__)))#sys.path.insert(0, os.environ.get('SEED_REPO', '/repo'))#; s#^HERE = os.path.dirname(os.path.abspath(__file__))#HERE = os.environ.get(\"SEED_REPO\", \"/repo\")#; s#$S#'+__import__('os').environ.get('SEED_REPO','/repo')+'#g" $S/demo.py > /verif/seeded/$N/demo.py
 grep -n "SEED_REPO\|$S" /verif/seeded/$N/demo.py | head -5
